@@ -27,7 +27,7 @@ fn spec(t: Tier) -> Spec {
     Spec {
         id: "C07",
         level: "exploration",
-        rule: format!("every name of <= {} characters over {:?} (except . and ..) is created as a file (t/f/NAME), as a directory holding another such name (t/d/NAME/NEXT), and used as a starting point (as given, and for directories respelled NAME/, NAME//, NAME/., ./NAME, .//NAME/ under -P, -H and -L (printed as given, the entry below joined with exactly one more '/' unless the spelling already ends in one); the starting-point lists also go through the real pipeline; the same directory under seven spellings one after the other in one run); find_main's -print0 and -print output must be, byte for byte, the starting point as given + '/'-joined names + one delimiter per entry and nothing else (reference list built from the names, sequence under -sorted); the same tree goes through a real `find -print0 | xargs -0 vrec LOG` pipeline and the recorder's argv must be that list exactly, each path once (every pipeline also runs with one of eight other spellings of the xargs side in turn: --null, -0 -i / --null --replace / -i -0 / -0 -I R / -IR --null / -0 --replace=@@ with the replace string as the command's argument, -0 -n 3); failing-command slice: the same pipeline with -n 3 and the recorder exiting 1, 125, 126, 127, 130, 254 on its first batches — every path is still delivered; extra slices: a directory holding dangling links and a link to a directory under nine spellings x -P/-H/-L x (plain, -follow, -depth); a path with a newline followed by >1024 bytes through real stdout (pipe and file), a listing arranged so that a multi-byte character straddles the 8192-byte buffer refill of xargs -0, and listings of 2500 entries arranged so that a NUL is exactly the last byte of a full 8192-byte buffer / the first byte of the next (pipeline and regular file); non-trivial = name containing a character other than 'a' and '.'", maxlen(t), ALPHA),
+        rule: format!("every name of <= {} characters over {:?} (except . and ..) is created as a file (t/f/NAME), as a directory holding another such name (t/d/NAME/NEXT), and used as a starting point (as given, and for directories respelled NAME/, NAME//, NAME/., ./NAME, .//NAME/ under -P, -H and -L (printed as given, the entry below joined with exactly one more '/' unless the spelling already ends in one); the starting-point lists also go through the real pipeline; the same directory under seven spellings one after the other in one run); find_main's -print0 and -print output must be, byte for byte, the starting point as given + '/'-joined names + one delimiter per entry and nothing else (reference list built from the names, sequence under -sorted); the same tree goes through a real `find -print0 | xargs -0 vrec LOG` pipeline and the recorder's argv must be that list exactly, each path once (every pipeline also runs with one of eight other spellings of the xargs side in turn: --null, -0 -i / --null --replace / -i -0 / -0 -I R / -IR --null / -0 --replace=@@ with the replace string as the command's argument, -0 -n 3); failing-command slice: the same pipeline with -n 3 and the recorder exiting 1, 125, 126, 127, 130, 254 on its first batches — every path is still delivered; extra slices: a directory holding dangling links and a link to a directory under nine spellings x -P/-H/-L x (plain, -follow, -depth); a path with a newline followed by >1024 bytes through real stdout (pipe and file), a listing arranged so that a multi-byte character straddles the 8192-byte buffer refill of xargs -0, and listings of 2500 entries arranged so that a NUL is exactly the last byte of a full 8192-byte buffer / the first byte of the next (pipeline and regular file); non-trivial = name containing a character other than 'a' and '.'; one entry of every printed length from 3 bytes up to about 510 (thorough: about 4000) bytes, each delimited on its own, through the pipeline", maxlen(t), ALPHA),
         bound: json!({"max_name_len": maxlen(t), "alphabet": ALPHA}),
         assumptions: vec!["names are valid UTF-8 (the statement's scope); tmpfs".into()],
         shards: 0,
